@@ -2,7 +2,7 @@
 
 from __future__ import annotations
 
-from ..rules import commute
+from ..rules import commute, expressions
 from .common import new_run
 
 LEVEL = "other"
@@ -37,6 +37,8 @@ def check(model, tier):
     commute.r04_1_matrix(ctx)
     commute.r04_2_failure_hands_back(ctx)
     commute.r04_3_moved_stay_wellformed(ctx)
+    commute.r04_4_set_formulas(ctx)
+    expressions.r13_4_required_columns(ctx, rule="R04.5")
     run.assume("operations preserve row order in engines that implement backtrack_unary (documented in UnaryOperation.commute)")
     run.assume("a Calculation is a deterministic function of existing columns (documented)")
     return run
